@@ -162,29 +162,37 @@ def _nested_entry(rng, h):
     return out
 
 
-def gen_multi2(rng, k: int):
+def gen_multi2(rng, k: int, vary: bool = False):
     """sections from the single-section generators (plain / page_by / new_page / subline_by / group_by, decorated
-    attributes), headers nested / flat / default / empty, shared title / subline / footnote / source / page"""
+    attributes), headers nested / flat / default / empty, shared title / subline / footnote / source / page.
+    `vary`: the header-variation class — every section's explicit header rows come from `encodecorr.vary_headers`
+    (any number of cells from 1 to the section's original column count + 1, widths inherited / per original column /
+    per displayed column / per cell), sections prefer the strategies that take columns out of the table, the header
+    list is nested (one entry per section) or flat (the first section's)"""
     from .props import c02, c06, c09
 
-    if k % 10 == 9:
+    if vary:
+        nsec = rng.choice([1, 2, 2, 3, 3, 4])
+        mode = rng.choice(["nested", "nested", "nested", "flat"])
+    elif k % 10 == 9:
         spec, info = c02.gen_multi(rng)
         info = dict(gen="c02.gen_multi", mode="nested", strategies=["plain"] * len(spec["df"]))
         return spec, info
-    if k % 50 == 7:
+    if k % 50 == 7 and not vary:
         # no section at all: the preamble followed by an empty body
         spec = dict(kind="multi", df=[], body=[], headers=[], page=dict(nrow=rng.randint(3, 30)),
                     title=dict(text=["TTL0"]) if rng.random() < 0.5 else None,
                     page_header={} if rng.random() < 0.5 else None,
                     footnote=dict(text="FTNOTE", text_color=rng.choice(EXTRA_COLORS)) if rng.random() < 0.5 else None)
         return spec, dict(gen="multi2", mode="empty", strategies=[], nsec=0)
-    nsec = rng.choice([1, 2, 2, 2, 3, 3, 4])
-    mode = rng.choice(["nested", "nested", "nested", "flat", "flat", "default", "empty"])
+    if not vary:
+        nsec = rng.choice([1, 2, 2, 2, 3, 3, 4])
+        mode = rng.choice(["nested", "nested", "nested", "flat", "flat", "default", "empty"])
     geo = c06.rand_geometry(rng)
     nrow = rng.choice([rng.randint(3, 12), rng.randint(8, 40)])
     secs = []
     for s in range(nsec):
-        strategy = rng.choice(SECTION_STRATEGIES)
+        strategy = rng.choice(ec.HV_STRATEGIES + ["plain", "plain"] if vary else SECTION_STRATEGIES)
         r = rng.random()
         n = 0 if r < 0.06 else rng.randint(1, 6) if r < 0.4 else rng.randint(4, 22)
         sspec, sinfo = laygen.gen_spec(rng, strategy=strategy, n=n, nrow=nrow, dividers=(rng.random() < 0.25),
@@ -197,8 +205,14 @@ def gen_multi2(rng, k: int):
             c02.mutate_cells(rng, sspec, sinfo, convert_off=False)
         if rng.random() < 0.2:
             ec.add_group_by(rng, sspec, sinfo)
-        if rng.random() < 0.75:
+        if vary:
+            if rng.random() < 0.4:
+                sspec["body"]["col_rel_width"] = [rng.choice([1, 2, 1.5, 3, 0.7]) for _ in sspec["df"]["cols"]]
+            ec.vary_headers(rng, sspec, sinfo)
+        if rng.random() < (0.4 if vary else 0.75):
             ec.decorate(rng, sspec, sinfo, rich=rng.random() < 0.5)
+        if vary:
+            ec.label_headers(sspec, sinfo)
         # a colour that only this section's body / header uses (the colour table is the whole document's)
         if rng.random() < 0.35:
             sspec["body"][rng.choice(["text_color", "text_background_color", "border_color_top", "border_color_left",
@@ -243,6 +257,12 @@ def gen_multi2(rng, k: int):
             c[rng.choice(["text_color", "text_background_color"])] = rng.choice(EXTRA_COLORS + c09.COLORS)
     info = dict(gen="multi2", mode=mode, strategies=[st for _, _, st in secs], nsec=nsec,
                 placements=[pt, pf, ps], new_page=[bool(sp["body"].get("new_page")) for sp, _, _ in secs])
+    if vary:
+        # the rows that are rendered: every section's own entry of a nested list, the first section's in a flat list
+        used = secs if mode == "nested" else secs[:1]
+        info.update(gen="multi2+headers", header_mode="varied",
+                    header_rows=[r for _, si, _ in used for r in si.get("header_rows", [])],
+                    n_removed=max(si.get("n_removed", 0) for _, si, _ in used))
     return spec, info
 
 
@@ -364,11 +384,14 @@ def gen_figure2(rng, k: int):
     return spec, info
 
 
-def gen_nested1(rng, k: int):
+def gen_nested1(rng, k: int, vary: bool = False):
     """a single-section document of `encodecorr.gen_doc`; `_nest` asks the worker to re-chunk its header list"""
-    spec, info = ec.gen_doc(rng, rng.choice([1, 1, 2, 3]), k)
+    spec, info = ec.gen_doc(rng, rng.choice([2, 2, 3, 1] if vary else [1, 1, 2, 3]), k, vary=vary)
     spec["_nest"] = rng.getrandbits(32)
-    return spec, dict(gen="nested1", strategy=info.get("strategy"))
+    out = dict(gen="nested1+headers" if vary else "nested1", strategy=info.get("strategy"))
+    if vary:
+        out.update({kk: info[kk] for kk in ("header_mode", "header_rows", "n_removed") if kk in info})
+    return spec, out
 
 
 def nest_headers(doc, seed: int):
@@ -411,11 +434,14 @@ GEN = {"multi": gen_multi2, "figure": gen_figure2, "nested1": gen_nested1}
 # ----------------------------------------------------------------------------- correspondence
 
 def _worker(args):
-    seed, path, k, fixed = args
+    seed, path, k, fixed, *rest = args
     wd = None
     try:
         if fixed is not None:
             spec, info = fixed["spec"], fixed.get("info", {})
+        elif rest and rest[0]:
+            # the header-variation class: its own random stream, the paths' streams stay as they were
+            spec, info = GEN[path](common.sub_rng(seed, "encodecorr2", "headers", path, k), k, vary=True)
         else:
             spec, info = GEN[path](common.sub_rng(seed, "encodecorr2", path, k), k)
         out = dict(spec=spec, info=info, path=path)
@@ -447,8 +473,10 @@ def _worker(args):
             shutil.rmtree(wd, ignore_errors=True)
 
 
-def generate_and_compare(seed: int, n_per_path: int, paths=PATHS, fixed=None):
+def generate_and_compare(seed: int, n_per_path: int, paths=PATHS, fixed=None, headers: int = 0):
+    """`headers` = number of additional documents of the header-variation class per table path (multi, nested1)"""
     jobs = [(seed, p, k, None) for p in paths for k in range(n_per_path)]
+    jobs += [(seed, p, k, None, True) for p in paths if p != "figure" for k in range(headers)]
     jobs += [(seed, f["path"], -1, f) for f in (fixed or [])]
     outs = common.pool_map(_worker, jobs, chunksize=8)
     for o in outs:
@@ -460,10 +488,12 @@ def generate_and_compare(seed: int, n_per_path: int, paths=PATHS, fixed=None):
 def run(res, tier):
     """per-path byte agreement of the encoder models with the implementation; returns the list of outcomes"""
     n = 150 if tier == "quick" else 1200
-    outs = generate_and_compare(res.seed, n) + generate_and_compare(res.seed, n // 3, paths=EXTRA_PATHS)
+    outs = (generate_and_compare(res.seed, n, headers=n // 3) +
+            generate_and_compare(res.seed, n // 3, paths=EXTRA_PATHS, headers=n // 6))
     for o in outs:
         case = dict(level="encode-doc2", path=o["path"], spec=o["spec"], info=o["info"])
         res.count(f"encode2:{o['path']}:{o['verdict']}")
+        ec.count_header_rows(res, o["info"], prefix="hdrcells2")
         if o["verdict"] in ("agree", "both-error"):
             res.corr_checked += 1
         elif o["verdict"] in ("near", "construct-error"):
@@ -501,7 +531,8 @@ def main(argv):
     import time
 
     t0 = time.time()
-    outs = generate_and_compare(seed, n) + generate_and_compare(seed, n // 3, paths=EXTRA_PATHS)
+    outs = (generate_and_compare(seed, n, headers=n // 3) +
+            generate_and_compare(seed, n // 3, paths=EXTRA_PATHS, headers=n // 6))
     stats: dict = {}
     for o in outs:
         stats.setdefault(o["path"], {}).setdefault(o["verdict"], []).append(o)
